@@ -83,6 +83,24 @@ LEVEL = {
             "narrow: upgrade/downgrade interleavings and DashMap linearizability as behaviours are not decided"),
 }
 
+# clauses added during the seeding round (appended to the first sentence of LEVEL)
+ADDED = {
+    "C01": "Also: every DataSource method is a function of its seed/own state only (no ambient read) and reinitialize re-seeds on every path with the seed it returns.",
+    "C03": "Also: a future that registers wakers registers the current one on every path to Poll::Pending (a stale waker is a false deadlock).",
+    "C04": "Also: an atomic operation does not chain several atomic operations (each would start with its own choice point); the holder record is written only after the acquire.",
+    "C05": "Also: a woken condvar waiter deletes its epoch from the other queues by search, never from a fixed end.",
+    "C06": "Also: the predicate guarding Full/block lets a sender proceed only on the not-full edge of the capacity comparison and only after seeing no queued sender, for every caller.",
+    "C07": "The thread-local destruction queue is checked for order-preserving operations (append at the back, take the front), independent of the container type.",
+    "C10": "Also: RandomDataSource::reinitialize restarts its generator on every path from the seed it reports.",
+    "C13": "Also: reset_step_count records the schedule length (same unit as the predicate); per-scheduler iteration budgets; maybe_yield is a no-op while a stopped execution is cleaned up (D9).",
+    "C14": "Reset must happen on the entry path of Execution::run (a failing execution skips cleanup, D8); in-flight stacks are unwound unless the thread is panicking.",
+    "C15": "Also (converse clause): only the enumerated synchronisation edges merge clocks; Task.clock and an atomic's clock are only created or grown.",
+    "C16": "Also: bit-layout agreement of writer and reader (strides, id bit range) and, by interval analysis of the reader's validation, that it accepts exactly the id widths the writer emits.",
+    "C17": "Also: JoinHandle::poll registers the current waker on every path to Pending.",
+    "C18": "Also: both Pending exits re-point the waiter at the current poller; a waiter that was granted permits never reports `closed`.",
+    "C19": "Also: Notify required effects (one stored permit, notify_one wakes exactly one, notify_waiters marks all before the first wake), fresh waker in Timeout.",
+}
+
 NOT_APPLICABLE = {}
 TECH["C09"] = "MIR type facts + dataflow: fixed data stream, stop-condition guards, shape of the backtracking step (structural clauses only)"
 TECH["C11"] = "MIR dataflow/guard-dependence: min_by_key over the offered slice, guards and key of every priority write, change-point sampling"
@@ -102,6 +120,8 @@ def main():
     checks = []
     for p in implemented:
         text, note = LEVEL[p]
+        if p in ADDED:
+            text = text + " " + ADDED[p]
         checks.append({
             "property_id": p,
             "quick_cmd": "./check %s --tier quick" % p,
